@@ -245,7 +245,7 @@ func classes(cs *caseStats, profile string) (string, []string) {
 	return key, cl
 }
 
-const rule = "generated genesis (1-7 validators, fork shapes, option flavours that make fee/ons/evidence/staking config updates validate, power shapes on the pass/fail thresholds) x history of create/fund/vote/cancel/withdraw/expire/finalise from proposers, funders, validators and strangers around both deadlines, with stake changes, on one replica; non-trivial = at least one proposal reaches a terminal stage (finalised, finalise-failed, expired, cancelled, goal missed); distinct by the set of terminal paths and the trace"
+const rule = "generated genesis (1-7 validators, fork shapes, option flavours that make fee/ons/evidence/staking config updates validate, power shapes on the pass/fail thresholds; one genesis in four carries 1-3 proposals of a dumped chain in the stages funding / voting / passed / failed / cancelled with escrowed contributions and recorded votes on and next to the pass percentage) x history of create/fund/vote/cancel/withdraw/expire/finalise from proposers, funders, validators and strangers around both deadlines, with stake changes, on one replica; non-trivial = at least one proposal reaches a terminal stage (finalised, finalise-failed, expired, cancelled, goal missed); distinct by the set of terminal paths and the trace"
 
 func TestC14(t *testing.T) {
 	h := run.Start(t, prop)
